@@ -341,6 +341,49 @@ func (t *c16) checkInt(u *refUnits, sdk *schema.UnitsDefinition, x int64) {
 	}
 }
 
+// checkFloatLoose: a float with more than six decimals cannot come back exactly (the formatter prints six);
+// the round trip must still yield a number, and one that is off by no more than what six decimals lose.
+func (t *c16) checkFloatLoose(u *refUnits, sdk *schema.UnitsDefinition, x float64) {
+	for _, form := range []string{"FormatShortFloat", "FormatLongFloat"} {
+		var s string
+		var got float64
+		var err error
+		p, site, msg, _ := wk.Guard(func() {
+			if form == "FormatShortFloat" {
+				s = sdk.FormatShortFloat(x)
+			} else {
+				s = sdk.FormatLongFloat(x)
+			}
+			got, err = sdk.ParseFloat(s)
+		})
+		t.c.Count("float_roundtrips_beyond_six_decimals")
+		if p {
+			t.viol("panic:"+form+":"+site, u, fmt.Sprintf("%s/ParseFloat(%v) panicked: %s", form, x, msg), map[string]any{"x": x})
+			continue
+		}
+		if err != nil {
+			t.viol("roundtrip-rejected:"+form, u, fmt.Sprintf("%s(%v)=%q is rejected by ParseFloat: %v", form, x, s, err), map[string]any{"x": x, "formatted": s})
+		} else if math.Abs(got-x) > 1e-6+1e-9*math.Abs(x) {
+			t.viol("roundtrip-wrong:"+form, u, fmt.Sprintf("ParseFloat(%s(%v)=%q)=%v", form, x, s, got), map[string]any{"x": x, "formatted": s, "parsed": got})
+		}
+	}
+}
+
+// looseFloats: quantities with more decimals than the formatter prints, down to values that print as zero.
+func looseFloats(r *wk.Rand, u *refUnits) []float64 {
+	xs := []float64{1e-7, 3e-7, 5e-7, 6e-7, 1e-9, 4.9e-324, 0.9999996, 59.9999999, 300.0000001, 1.0000004, 0.1234567, 2.5e-7}
+	for _, m := range u.mults {
+		f := float64(m.mult)
+		if f < 1e9 {
+			xs = append(xs, f-1e-7, f+1e-7, f+3e-7)
+		}
+	}
+	for i := 0; i < 20; i++ {
+		xs = append(xs, r.F64()*math.Pow(10, float64(r.Intn(12)-8)))
+	}
+	return xs
+}
+
 func (t *c16) checkFloat(u *refUnits, sdk *schema.UnitsDefinition, x float64) {
 	for _, form := range []string{"FormatShortFloat", "FormatLongFloat"} {
 		var s string
@@ -586,7 +629,7 @@ func specialFloats(r *wk.Rand, u *refUnits) []float64 {
 func runC16(c *wk.Ctx) {
 	t := &c16{c}
 	c.Meta("rule", "cases: (a) every integer in [0,200000] x 5 built-in + 3 generated unit sets x {short,long} format->ParseInt; (b) per generated definition (names with regexp metacharacters / prefixes of each other, arbitrary multipliers) and per built-in set: powers of ten +-1, multiplier boundaries +-1, random 63-bit ints, floats with <=6 decimals, generated well-formed strings and near-miss mutants compared with a big-rational reference parser, also through IntSchema/FloatSchema.Unserialize. distinct = hash(units definition, operation, input); every case is non-trivial (a formatted/parsed quantity); evaluations counts individual format/parse checks")
-	c.Meta("assumptions", []string{"floats are drawn with at most six decimals because the formatter prints %f; tolerance 1e-9 relative",
+	c.Meta("assumptions", []string{"floats with at most six decimals must come back within 1e-9 relative (the formatter prints %f); floats with more decimals, down to values that print as zero, must come back as a number within 1e-6 absolute",
 		"bare numbers without a unit name, repeated units, fractions on non-base units and leading zeros are unspecified: only 'never a wrong number' is checked for them"})
 	c.Floor("int_roundtrips", 1000)
 	c.Floor("float_roundtrips", 100)
@@ -657,6 +700,10 @@ func runC16(c *wk.Ctx) {
 				}
 			}
 			doFloats := func() {
+				for _, x := range looseFloats(r, ref) {
+					t.checkFloatLoose(ref, sdk, x)
+					c.Eval(wk.Hash64(ref.label, "float-loose", fmt.Sprint(x)), true)
+				}
 				for _, x := range specialFloats(r, ref) {
 					t.checkFloat(ref, sdk, x)
 					c.Eval(wk.Hash64(ref.label, "float", fmt.Sprint(x)), true)
